@@ -367,6 +367,9 @@ struct World {
    // leave out prints whose size is exponential in the number of operations (x*x built over itself fifty times).
    double print_weight(Ref r);
    std::unordered_map<Ref, double> weight_memo;
+   std::set<std::pair<Ref, Ref>> weight_back_edges;                // edges left out to make the estimate's graph acyclic
+   bool weight_edges_marked = false;
+   bool explain_weights = false;                                   // print the estimate's tree (replay --verbose with VERIF_EXPLAIN_WEIGHT=<object index>)
    std::unordered_map<Ref, size_t> word_size;                      // Identifier -> length of its spelling (print-size estimates)
 
    // --- helpers used by the op implementations ----------------------------------------------
